@@ -33,7 +33,7 @@ func C04(c *Ctx) {
 	c.Harnesses = append(c.Harnesses, "harness/LALR/zz_verif_resolve.go:VerifResolveCell", "harness/gen/ref.go.txt:VerifExpr")
 	c.RunSym(SymJob{Name: "resolve cell", Eng: eng, PkgPath: RepoModule + "/LALR", Entry: "VerifResolveCell",
 		Replay: ReplaySpec{Kind: "repo", PkgDirs: []string{"LALR"}},
-		Need:   []string{"shift/reduce", "reduce/reduce", "equal-left", "equal-right", "equal-nonassoc", "sr-default", "rr-default", "rr-both-prec"}})
+		Need:   []string{"shift/reduce", "reduce/reduce", "equal-left", "equal-right", "equal-nonassoc", "sr-default", "rr-default", "rr-both-prec", "bystander"}})
 	c.MarkDistinct("resolve-cell")
 	c.Harnesses = append(c.Harnesses, "harness/LALR/zz_verif_resolve.go:VerifResolveCell3")
 	c.RunSym(SymJob{Name: "resolve cell, three candidates", Eng: eng, PkgPath: RepoModule + "/LALR", Entry: "VerifResolveCell3",
